@@ -1,5 +1,6 @@
 # -*- coding: utf-8 -*-
 
+import threading
 from typing import (
     Any,
     Callable,
@@ -258,19 +259,30 @@ class Executor(ResolutionContext):
         args = list(self._iterate_fields(parent_type, fields))
 
         def _next():
-            try:
+            # Fields whose value is available at once are handled in a loop
+            # (one stack frame per field would limit the number of root
+            # fields); a deferred field hands over to its callback.
+            while args:
                 k, f, n = args.pop(0)
-            except IndexError:
-                return resolved_fields
-            else:
+                caller = threading.get_ident()
+                state = {"inline": True, "done": False}
 
-                def cb(value):
+                def cb(value, k=k, state=state, caller=caller):
                     resolved_fields[k] = value
+                    if state["inline"] and threading.get_ident() == caller:
+                        state["done"] = True
+                        return None
                     return _next()
 
-                return self.runtime.map_value(
+                deferred = self.runtime.map_value(
                     self.resolve_field(parent_type, root, f, n, path + [k]), cb
                 )
+                state["inline"] = False
+
+                if not state["done"]:
+                    return deferred
+
+            return resolved_fields
 
         return _next()
 
